@@ -100,13 +100,55 @@ class Capture:
         return False
 
 
-def run_generate(name, fcp, out_dir):
+CATEGORY_NODES = {
+    "struct": lambda f: len(f.structs),
+    "field": lambda f: sum(len(s.fields) for s in f.structs),
+    "enum": lambda f: len(f.enums),
+    "impl": lambda f: len(f.impls),
+    "signal_block": lambda f: sum(len(i.signals) for i in f.impls),
+    "type": lambda f: len(f.structs) + len(f.enums),
+    "device": lambda f: len(f.devices),
+}
+
+
+def verifier_with_house_rule(rng, fcp):
+    """The general verifier plus checks registered through the public API (fcp.verifier.register): some that always pass and,
+    at a random position of a random category, one that rejects the m-th node it is shown.  Returns (verifier, label, fires)."""
+    from fcp.verifier import make_general_verifier, register
+    from fcp.error import error
+    from fcp.result import Ok
+    v = make_general_verifier()
+    cat = rng.choice(sorted(CATEGORY_NODES))
+    count = CATEGORY_NODES[cat](fcp)
+    m = rng.randrange(count) if count else 0
+    before, after = rng.randint(0, 2), rng.randint(0, 1)
+    others = rng.sample(sorted(CATEGORY_NODES), rng.randint(0, 3))
+    calls = []
+
+    def passing(self, f, node):
+        return Ok(())
+
+    def rejecting(self, f, node):
+        calls.append(1)
+        return error(f"house rule: node {m} of category {cat} is not allowed") if len(calls) == m + 1 else Ok(())
+    for c in others:
+        register(v, c)(passing)
+    for _ in range(before):
+        register(v, cat)(passing)
+    position = len(v.checks[cat])
+    register(v, cat)(rejecting)
+    for _ in range(after):
+        register(v, cat)(passing)
+    return v, f"house-rule:{cat}:position{position}:node{m}", count > 0
+
+
+def run_generate(name, fcp, out_dir, verifier=None):
     from fcp.codegen import GeneratorManager
     from fcp.verifier import make_general_verifier
     import contextlib, io
     with Capture(name) as cap, contextlib.redirect_stdout(io.StringIO()):
         try:
-            r = GeneratorManager(make_general_verifier()).generate(name, None, None, fcp, out_dir)
+            r = GeneratorManager(verifier or make_general_verifier()).generate(name, None, None, fcp, out_dir)
             res = "OROk" if r.is_ok() else "ORErr"
         except SystemExit:
             raise
@@ -121,7 +163,9 @@ def run(chk):
     broken = chk.proof_obligations(["Corr/Pipeline.vo"])
     chk.coverage["rule"] = (
         "schemas from the fixed profile with CAN impls, parsed by the real front end, then one fault injected into the tree (duplicate type/field/"
-        "enumerator/impl, empty struct, unknown bound type, duplicate CAN id, missing service, oversize; first/middle/last position) or none; "
+        "enumerator/impl, empty struct, unknown bound type, duplicate CAN id, missing service, oversize; first/middle/last position) or none, "
+        "or - with no fault in the tree - a rejecting check registered through fcp.verifier.register in a random category at a random position "
+        "among passing ones, rejecting a random node; "
         "GeneratorManager(make_general_verifier()).generate run for dbc, can_c, cpp, nop on a pre-populated output directory; result and the "
         "directory before/after (names, contents, mtimes) observed; non-trivial = a fault was injected or files were written")
     cases, meta, fails = [], [], []
@@ -139,7 +183,15 @@ def run(chk):
             gen_schema.add_can_impls(chk.rng, desc, p=0.9)
             text = gen_schema.render(desc)
             fcp = serde_run.parse(text).unwrap()
-            fault = inject(chk.rng, fcp)
+            house = None
+            if chk.rng.random() < 0.3:
+                # no fault in the tree: a check registered through the public API rejects instead (any category, any position)
+                if chk.rng.random() < 0.5:
+                    fcp.devices.append(__import__("fcp.specs.device", fromlist=["Device"]).Device("dev0", {"id": 1}))
+                house = verifier_with_house_rule(chk.rng, fcp)
+                fault = house[1]
+            else:
+                fault = inject(chk.rng, fcp)
             name = chk.rng.choice(["dbc", "can_c", "cpp", "nop", "dbc", "can_c"])
             out = os.path.join(work, f"o{k}")
             os.makedirs(out)
@@ -152,7 +204,7 @@ def run(chk):
                 tterm = to_coq.ftree(fcp)
             except TypeError as e:
                 raise RuntimeError(f"tree outside the model: {e}")
-            res, cap = run_generate(name, fcp, out)
+            res, cap = run_generate(name, fcp, out, house[0] if house else None)
             after = snapshot(out)
             # what the plug-in returned (or would have returned / raised)
             if cap.returned is not None:
@@ -163,12 +215,16 @@ def run(chk):
                 pout = "PRaise"
             fsb = clist(cpair(cstr(fn), cz(cid(c))) for fn, (c, _) in sorted(before.items()))
             fsa = clist(cpair(cstr(fn), cz(cid(c))) for fn, (c, _) in sorted(after.items()))
-            cases.append(cpair(PLUGSET[name], tterm, pout, fsb, res, fsa))
-            meta.append((text, fault, name, res))
+            if house is None:            # the model knows the shipped checks only; house rules are judged by the predicates below
+                cases.append(cpair(PLUGSET[name], tterm, pout, fsb, res, fsa))
+                meta.append((text, fault, name, res))
             chk.count((text, fault, name), nontrivial=(fault != "none" or files),
                       sample={"schema": text, "fault": fault, "generator": name, "result": res,
                               "written": None if files is None else [f for f, _ in files][:6]})
-            chk.hist("fault", fault); chk.hist("generator", name); chk.hist("result", res)
+            chk.hist("fault", fault.split(":node")[0]); chk.hist("generator", name); chk.hist("result", res)
+            if house is not None and house[2] and res == "OROk":
+                fails.append({"kind": "rejected-by-a-registered-check-but-generated", "schema": text, "fault": fault, "generator": name,
+                              "how": "checks registered with fcp.verifier.register on make_general_verifier(): see fault = house-rule:<category>:position<k>:node<m>"})
             # the property's own predicate on the implementation
             if res in ("ORErr", "ORExn") and before != after:
                 changed = sorted(set(before) ^ set(after) | {f for f in before if f in after and before[f] != after[f]})
@@ -182,7 +238,7 @@ def run(chk):
                     fails.append({"kind": "accepted-but-directory-differs-from-returned-files", "schema": text, "fault": fault, "generator": name,
                                   "missing": sorted(set(want) - set(got)), "extra": sorted(set(got) - set(want)),
                                   "different": sorted(f for f in want if f in got and want[f] != got[f])})
-            if res == "OROk" and fault not in ("none", "dup_can_id", "too_big", "unknown_type") :
+            if res == "OROk" and house is None and fault not in ("none", "dup_can_id", "too_big", "unknown_type") :
                 fails.append({"kind": "rejected-schema-was-generated", "schema": text, "fault": fault, "generator": name})
             shutil.rmtree(out, ignore_errors=True)
     finally:
